@@ -37,7 +37,7 @@ func init() { core.Register(c11{}) }
 
 func (c11) ID() string { return "C11" }
 func (c11) Rule() string {
-	return "plans: an artifact whose resolved descriptor carries 0-3 annotations, in (a) a recording repository that hands out its own stored descriptor (as a cache would), (b) an oras memory store or (c) a real on-disk OCI layout (through registry.NewOCIRepository or behind the fault-injecting wrapper); 1-3 consecutive notation.SignOCI calls with tag / digest / full / mismatching-digest references, metadata empty / disjoint / colliding with an artifact annotation / reserved-prefixed, JWS / COSE, sometimes the very same options again; faults: resolve error, blob push ok + manifest push error; re-open of the layout between calls; sim clock advancing between calls. One plan in eight is the concurrent variant: 2-3 signing hosts, each with its own repository client, sign the same artifact in one shared registry (fresh or already holding a signature) while the tape interleaves their registry calls. non-trivial: more than one call, or a call with metadata, or a fault; distinct: hash of (store kind, annotations, call sequence, faults, verdicts)"
+	return "plans (the signer answers 0 / 600 / 1200 ms after it signed): an artifact whose resolved descriptor carries 0-3 annotations, in (a) a recording repository that hands out its own stored descriptor (as a cache would), (b) an oras memory store or (c) a real on-disk OCI layout (through registry.NewOCIRepository or behind the fault-injecting wrapper); 1-3 consecutive notation.SignOCI calls with tag / digest / full / mismatching-digest references, metadata empty / disjoint / colliding with an artifact annotation / reserved-prefixed, JWS / COSE, sometimes the very same options again; faults: resolve error, blob push ok + manifest push error; re-open of the layout between calls; sim clock advancing between calls. One plan in eight is the concurrent variant: 2-3 signing hosts, each with its own repository client, sign the same artifact in one shared registry (fresh or already holding a signature) while the tape interleaves their registry calls. non-trivial: more than one call, or a call with metadata, or a fault; distinct: hash of (store kind, annotations, call sequence, faults, verdicts)"
 }
 func (c11) Components() map[string]string {
 	return map[string]string{
@@ -125,15 +125,23 @@ type recordingSigner struct {
 	inner notation.Signer
 	descs []ocispec.Descriptor
 	sigs  [][]byte // what the signer returned, call by call
+	// a signer that takes its time to answer (a remote key service): the signing time is the one in the envelope, read
+	// when the signer signed (signedAt), not the time of its answer
+	slow     time.Duration
+	signedAt time.Time
 }
 
 func (s *recordingSigner) Sign(ctx context.Context, desc ocispec.Descriptor, opts notation.SignerSignOptions) ([]byte, *signature.SignerInfo, error) {
 	c := desc
 	c.Annotations = copyMap(desc.Annotations)
 	s.descs = append(s.descs, c)
+	s.signedAt = time.Now()
 	b, si, err := s.inner.Sign(ctx, desc, opts)
 	if err == nil {
 		s.sigs = append(s.sigs, b)
+	}
+	if s.slow > 0 {
+		rt.Sleep(s.slow)
 	}
 	return b, si, err
 }
@@ -409,7 +417,14 @@ func (l c11) Exec(env *core.Env) *core.Result {
 			nSigned := len(rs.descs)
 			faultsBefore := task.FaultsSeen
 			tCall := time.Now()
+			rs.slow, rs.signedAt = time.Duration(op.Int(4)%3)*600*time.Millisecond, time.Time{}
 			gotDesc, sigManifest, err := notation.SignOCI(ctx, rs, repo, opts)
+			if !rs.signedAt.IsZero() {
+				tCall = rs.signedAt
+			}
+			if rs.slow > time.Second {
+				res.Probe("signer_answered_in_the_second_after_the_signing_time")
+			}
 			faulted := task.FaultsSeen != faultsBefore
 			key := fmt.Sprintf("call=%d store=%d ref=%d meta=%d repeat=%v artifact-annotations=%d", ci, storeKind, op.Int(0), op.Int(1), op.Int(3) == 1 && prev != nil, len(baseAnn))
 			verdict := "ok"
